@@ -729,6 +729,7 @@ fn const_j<'tcx>(tcx: TyCtxt<'tcx>, tenv: TypingEnv<'tcx>, c: &mir::ConstOperand
             o.push(("full".into(), J::s(tcx.def_path_str_with_args(*did, args))));
             o.push(("targs".into(), generic_args_j(tcx, args)));
             o.push(("res".into(), resolve_j(tcx, tenv, *did, args)));
+            o.push(("krate".into(), J::s(tcx.crate_name(did.krate).to_string())));
         }
         ty::Closure(did, _) => {
             o.push(("closure".into(), J::s(def_s(tcx, *did))));
@@ -810,6 +811,7 @@ fn resolve_j<'tcx>(
                 ("def".into(), J::s(def_s(tcx, rid))),
                 ("kind".into(), J::s(kind)),
                 ("local".into(), J::Bool(rid.is_local())),
+                ("krate".into(), J::s(tcx.crate_name(rid.krate).to_string())),
                 (
                     "full".into(),
                     J::s(tcx.def_path_str_with_args(rid, inst.args)),
